@@ -663,7 +663,7 @@ fn main() {
     }
 
     if miri {
-        stress(&rep, a.seed, 0, 4, 0, true);
+        stress(&rep, a.seed, 0, 12, 0, true);
         rep.finish();
         return;
     }
@@ -686,9 +686,9 @@ fn main() {
     rep.set_exhaustive(false);
     rep.set_extra("controlled", json!({"gating": gating, "base_scenarios": scenarios.len(), "scenarios_fully_enumerated": all_exhausted_before}));
     // random scenarios, each fully enumerated up to a cap
-    for _ in 0..a.pick(4, 300) {
+    for _ in 0..a.pick(4, 200) {
         let sc = random_scenario(&mut rng, 4);
-        controlled_exhaustive(&rep, &sc, &gating, a.pick(40, 3_000), a.pick(40, 500), &mut rng);
+        controlled_exhaustive(&rep, &sc, &gating, a.pick(40, 1_200), a.pick(40, 300), &mut rng);
     }
 
     let t_controlled = rep.elapsed_s();
